@@ -38,12 +38,16 @@ impl Script {
 }
 impl TxIn {
 //@fn TxIn::to_bytes_impl
+//@wrapper TxIn::to_bytes @ src/transaction/txin.rs = TxIn::to_bytes_impl
 //@fn TxIn::new
 //@fn TxIn::is_coinbase_outpoint_impl
 //@fn TxIn::is_coinbase_impl
+//@wrapper TxIn::is_coinbase @ src/transaction/txin.rs = TxIn::is_coinbase_impl
 //@fn TxIn::read_in
 //@fn TxIn::from_hex_impl
+//@wrapper TxIn::from_hex @ src/transaction/txin.rs = TxIn::from_hex_impl
 //@fn TxIn::from_outpoint_bytes_impl
+//@wrapper TxIn::from_outpoint_bytes @ src/transaction/txin.rs = TxIn::from_outpoint_bytes_impl
 //@fn TxIn::set_prev_tx_id
 //@fn TxIn::set_vout
 //@stubrest TxIn
@@ -53,11 +57,13 @@ impl Default for TxIn {
 }
 impl TxOut {
 //@fn TxOut::to_bytes_impl
+//@wrapper TxOut::to_bytes @ src/transaction/txout.rs = TxOut::to_bytes_impl
 //@fn TxOut::get_script_pub_key_size
 //@fn TxOut::new
 //@fn TxOut::get_satoshis
 //@fn TxOut::read_in
 //@fn TxOut::from_hex_impl
+//@wrapper TxOut::from_hex @ src/transaction/txout.rs = TxOut::from_hex_impl
 //@stubrest TxOut
 }
 impl Hash {
@@ -66,6 +72,7 @@ impl Hash {
 }
 impl Transaction {
 //@fn Transaction::to_bytes_impl
+//@wrapper Transaction::to_bytes @ src/transaction/mod.rs = Transaction::to_bytes_impl
 //@fn Transaction::get_ninputs
 //@fn Transaction::get_noutputs
 //@fn Transaction::get_version
@@ -73,10 +80,14 @@ impl Transaction {
 //@fn Transaction::get_input
 //@fn Transaction::get_output
 //@fn Transaction::get_size_impl
+//@wrapper Transaction::get_size @ src/transaction/mod.rs = Transaction::get_size_impl
 //@fn Transaction::get_id_impl
 //@fn Transaction::is_coinbase_impl
+//@wrapper Transaction::is_coinbase @ src/transaction/mod.rs = Transaction::is_coinbase_impl
 //@fn Transaction::from_bytes_impl
+//@wrapper Transaction::from_bytes @ src/transaction/mod.rs = Transaction::from_bytes_impl
 //@fn Transaction::from_hex_impl
+//@wrapper Transaction::from_hex @ src/transaction/mod.rs = Transaction::from_hex_impl
 //@stubrest Transaction
 }
 } // verus!
